@@ -2,6 +2,7 @@ package sim
 
 import (
 	"fmt"
+	"os"
 	"strconv"
 	"time"
 )
@@ -48,6 +49,14 @@ type Task struct {
 	done    bool
 	site    string
 }
+
+// deadlockTimeout: a released task reaches its next seam within microseconds;
+// twenty seconds of silence on an otherwise idle scheduler is a deadlock.
+const deadlockTimeout = 20 * time.Second
+
+// ExitDeadlock is the exit code of a process whose scheduler found the
+// released task blocked for good.
+const ExitDeadlock = 78
 
 // HarnessTrouble is panicked (and turned into exit code 2 by main) when the
 // simulator itself misbehaves; it is never reported as a violation.
@@ -114,8 +123,16 @@ func (s *Sched) wait() schedEvent {
 	select {
 	case ev := <-s.events:
 		return ev
-	case <-time.After(60 * time.Second):
-		panic(HarnessTrouble{"watchdog: a task neither parked nor finished within 60s"})
+	case <-time.After(deadlockTimeout):
+		// The one task that was released neither reached its next seam nor
+		// finished: with every other task parked (none of them holding a lock
+		// the simulator knows of) that is a deadlock inside the code under test —
+		// typically a lock taken while another one is held.  The blocked
+		// goroutines cannot be unwound; the process exits with a code of its own
+		// and the coordinator confirms in a fresh process.
+		fmt.Fprintln(os.Stderr, "tabsim: released task is blocked: deadlock")
+		os.Exit(ExitDeadlock)
+		panic("unreachable")
 	}
 }
 
